@@ -1,5 +1,7 @@
 use crate::common::Emitter;
 
+pub mod c05;
+pub mod c09;
 pub mod c16;
 pub mod c17;
 pub mod c18;
@@ -10,11 +12,15 @@ pub mod c19;
 /// when given, then generates `count` cases from `seed`.
 pub fn run(suite: &str, seed: u64, count: u64, corpus: Option<&str>, em: &mut Emitter) -> bool {
     match suite {
+        "c05" => c05::run(seed, count, corpus, em),
+        "c05repo" => c05::run_repo(seed, count, corpus, em),
         "c16" => c16::run(seed, count, corpus, em),
         "c17" => c17::run(seed, count, corpus, em),
         "c18" => c18::run(seed, count, corpus, em),
         "diffparse" => diffparse::run(seed, count, corpus, em),
         "c19" => c19::run(seed, count, corpus, em),
+        "c09" => c09::run(seed, count, corpus, em),
+        "c09repo" => c09::run_repo(seed, count, corpus, em),
         _ => return false,
     }
     true
